@@ -4,8 +4,10 @@ import (
 	"bytes"
 	"errors"
 	"fmt"
+	"maps"
 	"math"
 	"net"
+	"slices"
 	"sort"
 	"strings"
 	"time"
@@ -1963,22 +1965,34 @@ func (cs *ConditionsSet) SubQueries() []string {
 		if len(needed) == 0 {
 			return filters, []string{wantedSubQuery}
 		}
-		bestOrder := []string(nil)
-		bestFilters := uint(0)
-		for sq := range needed {
+		// all needed sub queries have to be resolved before this one, the ones with the most filters first
+		type resolution struct {
+			filters uint
+			order   []string
+		}
+		resolutions := []resolution(nil)
+		for _, sq := range slices.Sorted(maps.Keys(needed)) {
 			newForbidden := map[string]struct{}{}
 			for f := range forbidden {
 				newForbidden[f] = struct{}{}
 			}
 			newForbidden[wantedSubQuery] = struct{}{}
 			curFilters, resolutionOrder := resolve(sq, newForbidden)
-			if bestFilters > curFilters {
-				continue
-			}
-			bestFilters = curFilters
-			bestOrder = resolutionOrder
+			resolutions = append(resolutions, resolution{curFilters, resolutionOrder})
 		}
-		return bestFilters + filters, append(bestOrder, wantedSubQuery)
+		sort.SliceStable(resolutions, func(i, j int) bool {
+			return resolutions[i].filters > resolutions[j].filters
+		})
+		order := []string(nil)
+		for _, r := range resolutions {
+			filters += r.filters
+			for _, sq := range r.order {
+				if !slices.Contains(order, sq) {
+					order = append(order, sq)
+				}
+			}
+		}
+		return filters, append(order, wantedSubQuery)
 	}
 	_, res := resolve("", nil)
 	return res
